@@ -1,7 +1,7 @@
 import re,sys,glob,json,os
 res={}
-for d in sorted(glob.glob('/tmp/mut-C*/out/m*/validation.log')):
-    mid=d.split('/')[2].replace('mut-','')+'-'+d.split('/')[4]
+for d in sorted(glob.glob('/tmp/mut*-C*/out/m*/validation.log')):
+    mid=d.split('/')[2].replace('mut2-','R2:').replace('mut-','')+'-'+d.split('/')[4]
     txt=open(d).read()
     m=re.search(r'demo_clean_rc=(\d+) demo_patched_rc=(\d+) suite: (.*)',txt)
     checks=re.findall(r'check (C\d+) exit=(\d+) violations=(\d+)',txt)
